@@ -53,7 +53,10 @@ CmpR == IF Rich THEN E0 ELSE {Ref("b"), Lit(1)}
 Ranges == {Range(s, t, st) : s \in RangeLo..RangeHi, t \in RangeLo..RangeHi, st \in Steps}
 RangeItems == IF Rich THEN {Ref("a"), Fn("sub", <<Ref("a"), Ref("b")>>)} ELSE {Ref("a")}
 Seqs == {SeqC(<<>>), SeqC(<<Lit(1)>>), SeqC(<<Ref("b"), Lit(0)>>), SeqC(<<Lit(2), Lit(-1), Ref("b")>>),
-         SeqC(<<Fn("add", <<Ref("b"), Lit(1)>>), Lit(1), Lit(1)>>)}
+         SeqC(<<Fn("add", <<Ref("b"), Lit(1)>>), Lit(1), Lit(1)>>),
+         \* all-literal sequences: consecutive, unordered, with duplicates, with gaps hidden by duplicates
+         SeqC(<<Lit(1), Lit(1), Lit(3)>>), SeqC(<<Lit(2), Lit(0), Lit(1)>>), SeqC(<<Lit(3), Lit(3)>>),
+         SeqC(<<Lit(-1), Lit(1), Lit(0), Lit(0), Lit(3)>>), SeqC(<<Lit(-2), Lit(-1), Lit(0), Lit(1)>>)}
 
 PredAtoms == {PLit(TRUE), PLit(FALSE)}
                \cup {Cmp(f, l, r) : f \in CmpFns, l \in CmpL, r \in CmpR}
